@@ -242,7 +242,7 @@ class Built:
                         "_yatiml_extra))")
             body.append('        self._yatiml_extra = _yatiml_extra if '
                         '_yatiml_extra is not None else OrderedDict()')
-        body.append('        _LOG.append(("init", %r, type(self).__name__, '
+        body.append('        _LOG.append(("init", %r, type(self)._verif_name, '
                     '_kw))' % name)
         if c['initraises']:
             body.append('        raise ValueError("constructor of %s refuses")'
@@ -266,6 +266,7 @@ class Built:
         exec(src, ns)
         cls = ns[name]
         cls.__module__ = __name__
+        cls.__name__ = cls.__qualname__ = c.get('pyname', name)
         cls._verif_params = names
         if c['abstract'] and bases:
             import abc
@@ -276,19 +277,20 @@ class Built:
     def _hooks(self, cls, c):
         name = c['name']
         built = self
+        cls._verif_name = name
         if c['hasrecog']:
             def rec(k, node, _e=c['recog']):
-                LOG.append(('rec', name, k.__name__, None))
+                LOG.append(('rec', name, getattr(k, '_verif_name', k.__name__), None))
                 built.apply_recog(_e, node)
             cls._yatiml_recognize = classmethod(rec)
         if c['hassav']:
             def sav(k, node, _e=c['sav']):
-                LOG.append(('sav', name, k.__name__, None))
+                LOG.append(('sav', name, getattr(k, '_verif_name', k.__name__), None))
                 built.apply_effect(_e, node)
             cls._yatiml_savorize = classmethod(sav)
         if c['hasswe']:
             def swe(k, node, _e=c['swe']):
-                LOG.append(('swe', name, k.__name__, None))
+                LOG.append(('swe', name, getattr(k, '_verif_name', k.__name__), None))
                 built.apply_effect(_e, node)
             cls._yatiml_sweeten = classmethod(swe)
 
@@ -393,7 +395,7 @@ class Built:
             cls = self.classes[t[1]]
             if not isinstance(v, cls):
                 return False
-            name = type(v).__name__
+            name = getattr(type(v), '_verif_name', type(v).__name__)
             c = self.byname.get(name)
             if c is None or name not in self.model['reg'] or c['abstract']:
                 return False
